@@ -376,12 +376,22 @@ class ModelMixin:
 
     def bi_any(self, args, kw, st, node):
         v = args[0]
+        if v.k == "comp":
+            items = self.comp_static(v, st, node)
+            if items is None:
+                raise Unsupported(f"{self.where(node)}: any() over a symbolic comprehension")
+            return self._fold_bool(items, st, any_mode=True)
         src = self.iter_source(v, st, node)
         if src[0] == "static":
             return self._fold_bool(src[1], st, any_mode=True)
         raise Unsupported(f"{self.where(node)}: any() over a symbolic iterable")
 
     def bi_all(self, args, kw, st, node):
+        if args[0].k == "comp":
+            items = self.comp_static(args[0], st, node)
+            if items is None:
+                raise Unsupported(f"{self.where(node)}: all() over a symbolic comprehension")
+            return self._fold_bool(items, st, any_mode=False)
         src = self.iter_source(args[0], st, node)
         if src[0] == "static":
             return self._fold_bool(src[1], st, any_mode=False)
